@@ -442,6 +442,10 @@ func runC18(cfg Config) {
 			if (benign || noname) && rng.Intn(4) != 0 {
 				name = fmt.Sprintf("n%d", rng.Intn(2))
 			}
+			if benign && it%16 == 10 {
+				// names that are prefixes of their siblings' names, in any order (an archive need not be sorted)
+				name = []string{"n0", "n0.d", "n0x", "n", "n0.d"}[rng.Intn(5)]
+			}
 			fname := fname
 			if noname && rng.Intn(3) == 0 {
 				fname = func(string) []byte { return nil }
@@ -499,6 +503,23 @@ func runC18(cfg Config) {
 			b = append(b, entry(0o100644)...)
 			b = append(b, payload([]byte("through the replaced directory?"))...)
 			depth++
+		}
+		if benign && it%16 == 6 {
+			// directed: a directory with something in it, left again, and after it a regular file in the same parent
+			// whose name is a prefix of the directory's name: the directory keeps its archived mtime
+			for d := depth; d > 0 && rng.Intn(2) == 0; d-- {
+				b = append(b, goodbye()...)
+				depth--
+			}
+			b = append(b, fname("app.d")...)
+			b = append(b, entry(0o040755)...)
+			b = append(b, fname("conf")...)
+			b = append(b, entry(0o100644)...)
+			b = append(b, payload([]byte("c"))...)
+			b = append(b, goodbye()...)
+			b = append(b, fname("app")...)
+			b = append(b, entry(0o100755)...)
+			b = append(b, payload([]byte("a"))...)
 		}
 		if benign && it%8 == 2 {
 			// directed: a directory is written and left, then its name is re-used for a file and for a
